@@ -115,7 +115,7 @@ def handle_failure(prop, unit, ob, sidecars, timeout_ms):
             if model is not None:
                 inputs = replay_mod.concretize(ob, unit.explorer, model, num)
                 payload["inputs"] = inputs
-                case = {"qualname": unit.name, "sidecars": sidecars, "inputs": inputs}
+                case = {"qualname": unit.name, "sidecars": sidecars, "inputs": inputs}  # unit.name is the contract key
                 payload["case"] = case
                 nat = replay_mod.run_native(case)
                 payload["native"] = nat
